@@ -78,6 +78,10 @@ THEOREMS = [
     "Lena.C19.group_fresh_partial",
     "Lena.C19.runPlots_fresh",
     "Lena.C19.tailStage_eq_downCore",
+    "Lena.C19.stale_when_csv_missing",
+    "Lena.C19.stale_when_tex_missing",
+    "Lena.C19.fresh_when_all_sources_missing",
+    "Lena.C19.group_history_fresh_partial",
 ]
 CASE_TIMEOUT = 20
 
@@ -695,6 +699,8 @@ def _ref_group_base(cfg, names):
     """the same for the combined plot of a group: keys common to all members belong to the group as well
     (MapGroup: "common changes of group context update common context"), the rest comes from MakeFilename"""
     outs = [dict(_ref_make_filename(cfg["mf"], n, {"filetype": "csv"})) for n in names]
+    if not outs:
+        return _join(cfg["outdir"], "nothing")
     for o, n in zip(outs, names):
         o["filename"] = o["filename"] or "output"
     inter = {k: (outs[0][k] if all(o[k] == outs[0][k] for o in outs) else None) for k in ("filename", "dirname")}
@@ -861,6 +867,8 @@ def hist_failures(case, res):
         run = res["runs"][ri]
         tag = f"run {ri}"
         if "e" in run:
+            if not rs["plots"]:
+                break      # a group of no plots (MapGroup raises IndexError) is outside the property's 1..3 plots
             fails.append(("violation", f"{tag}: the pipeline raised {run['e']} ({run.get('phase')}) {run.get('msg', '')}"))
             break
         files = {p: f["c"] for p, f in run["files"].items()}
@@ -1015,7 +1023,7 @@ def classify(case, res):
         return ["stage:" + op + (":error" if "e" in res else "")]
     labels = []
     runs = [st["run"] for st in case["steps"] if "run" in st]
-    labels.append(f"hist:{runs[0]['layout']}:plots={len(runs[0]['plots'])}:runs={len(runs)}")
+    labels.append(f"hist:{runs[0]['layout']}:plots={len(runs[-1]['plots'])}:runs={len(runs)}")
     labels.append("stub:" + case.get("stub", "fake"))
     for r in runs[1:]:
         labels.append(f"write modes (csv/tex):{r['w1']}/{r['w2']}")
@@ -1249,6 +1257,9 @@ def gen_cases(ctx):
             for tpl in (1, 2):
                 for dels in [[]] + [[f] for f in files]:
                     add({"op": "hist", "steps": [f0, _run_step(_cfg(), layout, tpl, list(datas), dels)]})
+    # no plots at all (outside the property; the model's branches are compared)
+    add({"op": "hist", "steps": [_run_step(_cfg(), "group", 1, []), _run_step(_cfg(), "separate", 1, [])]})
+    add({"op": "hist", "steps": [_run_step(_cfg(), "separate", 1, []), _run_step(_cfg(), "separate", 1, [1])]})
     # other file names: sub-directories, literal parts, a default file name, a named group in a directory
     variants = [
         ("separate", 2, _cfg(mf=dict(STD_MF, dirname=["sub"]))),
@@ -1373,7 +1384,8 @@ RULE = ("stage cases (exhaustive small scopes): MakeFilename arguments x name x 
         "csv/tex/pdf/png (64), the same with all 36 option settings; a group of two plots with every step of its "
         "256-step alphabet; groups of 1 and 3, 2 and 3 separate plots and seven naming variants with single deletions; "
         "quick adds 900 sampled two-step and 500 random histories (1-3 plots, 2-4 runs, random options), thorough "
-        "enumerates ALL histories of up to four runs of one plot with standard options (4096 + 262 144) and samples 90 000 more; real sh-script converters on a "
+        "enumerates all 4096 histories of three runs of one plot (standard options) and samples 65 000 more (four runs, "
+        "groups, option settings, random); real sh-script converters on a "
         "sample.  Non-trivial: a history of at least two completed runs.")
 LEVEL_TEXT = ("Lean 4 theorems about a transcribed model of the output pipeline over an abstract file system, for all "
               "converters, pre-states satisfying the stated invariant, data, templates, numbers of plots and option "
